@@ -2,7 +2,7 @@ open Driver_common
 open SymTab
 
 let parse_op (s : string) : op =
-  let kind = s.[0] in
+  let kind = (Stdlib.String.get s 0) in
   let rest = Stdlib.String.sub s 1 (Stdlib.String.length s - 1) in
   let j, id = match Stdlib.String.index_opt rest ':' with
     | Some k -> Stdlib.String.sub rest 0 k, Stdlib.String.sub rest (k + 1) (Stdlib.String.length rest - k - 1)
